@@ -77,6 +77,43 @@ let frontend_mode vname inp outp =
     end) (read_lines inp);
   close_out oc
 
+let rec nat_of_int (i : int) : nat = if i <= 0 then O else S (nat_of_int (i - 1))
+
+(* the observation line of one rendered diagnostic: geometry + expanded source lines *)
+let render_line (s : z list) (dspan : nat * nat) (labels : (nat * nat) list) : string =
+  match render_diagnostic s dspan labels, render_lines s dspan labels with
+  | Some g, Some (src, xs) ->
+      let b = Buffer.create 64 in
+      Buffer.add_string b (Printf.sprintf "R %d %d %d S" (int_of_nat g.g_line) (int_of_nat g.g_col) (int_of_nat g.g_carets));
+      List.iter (fun ((same, c), n) -> if same then Buffer.add_string b (Printf.sprintf " %d %d" (int_of_nat c) (int_of_nat n))) g.g_labels;
+      Buffer.add_string b " X";
+      List.iter (fun ((same, c), n) -> if not same then Buffer.add_string b (Printf.sprintf " %d %d" (int_of_nat c) (int_of_nat n))) g.g_labels;
+      Buffer.add_string b (" L " ^ hex src);
+      List.iter (function Some l -> Buffer.add_string b (" " ^ hex l) | None -> ()) xs;
+      Buffer.contents b
+  | _, _ -> "R none"
+
+(* nsmodel frontend_render <in> <out>: each line `<hexsrc> <a> <b> <n> <c1> <d1> ...` *)
+let render_mode inp outp =
+  let oc = open_out outp in
+  let last_hex = ref "" and last_src = ref [] in
+  List.iter (fun line ->
+    match words line with
+    | [] -> ()
+    | h :: a :: b :: _n :: rest ->
+        if h <> !last_hex then begin last_hex := h; last_src := unhex h end;
+        let s = !last_src in
+        let n i = nat_of_int (int_of_string i) in
+        let rec pairs = function x :: y :: tl -> (n x, n y) :: pairs tl | _ -> [] in
+        if not (valid_utf8 s) then output_string oc "R skip\n"
+        else output_string oc (render_line s (n a, n b) (pairs rest) ^ "\n")
+    | _ -> output_string oc "R badinput\n") (read_lines inp);
+  close_out oc
+
 let () = register "frontend" (function
   | v :: inp :: outp :: _ -> frontend_mode v inp outp
   | _ -> failwith "frontend: <shipped|repaired|source> <in> <out>")
+
+let () = register "frontend_render" (function
+  | inp :: outp :: _ -> render_mode inp outp
+  | _ -> failwith "frontend_render: <in> <out>")
